@@ -24,6 +24,8 @@ def run(ctx):
     typer = typer_for(ctx)
     X.rule_D1(ctx, typer, "MermaidExporter")
     X.rule_optint_truthiness(ctx, typer, FILES)
+    X.rule_D1c_complete(ctx, typer, "MermaidExporter")
+    ctx.floor("D1c", 2)
     X.rule_D3_escape(ctx, typer, "MermaidExporter", quoted=False)
     X.rule_D4_ids(ctx, typer, "MermaidExporter")
     X.rule_D5_structure(ctx, typer, "MermaidExporter", closing=None, writer="to_file")
